@@ -1,7 +1,9 @@
 from typing import List
 
 from classy_blocks.base.exceptions import UndefinedGradingsError
+from classy_blocks.grading.grading import Grading
 from classy_blocks.items.block import Block
+from classy_blocks.items.wires.manager import WirePropagateManager
 
 
 class BlockList:
@@ -19,6 +21,16 @@ class BlockList:
         self.update_neighbours(block)
 
     def grade_blocks(self) -> None:
+        # start from scratch: what was copied from neighbours in a previous run
+        # (the mesh could have been written before, and vertices moved since) is stale
+        for block in self.blocks:
+            for axis in block.axes:
+                if isinstance(axis.wires, WirePropagateManager):
+                    axis.wires.chops = []
+
+                    for wire in axis.wires:
+                        wire.grading = Grading(wire.length)
+
         for block in self.blocks:
             block.grade()
 
